@@ -97,7 +97,7 @@ func genC07(d *Draw) Case {
 		c.Meta["c07family"] = fam
 		return c
 	}
-	opts := ProgOpts{Kinds: []string{"seq", "xor", "and", "or", "loop", "sub", "condtask"}, MaxDepth: 1 + d.N(2), MaxTasks: 2 + d.N(5), OrEarlyEnd: true}
+	opts := ProgOpts{Kinds: []string{"seq", "xor", "and", "or", "loop", "sub", "condtask"}, MaxDepth: 1 + d.N(2), MaxTasks: 2 + d.N(5), OrEarlyEnd: true, Throws: true}
 	var kinds []string
 	for _, k := range opts.Kinds {
 		if d.N(3) != 0 {
